@@ -57,6 +57,7 @@ package history
 
 //@ func (*SearchHistory).GetStats
 //@   ensures[C16.stats-total] result.TotalSearches == len(sh.Entries)
+//@   ensures[C16.stats-span] len(sh.Entries) > 0 ==> result.OldestEntry == sh.Entries[0].Timestamp && result.NewestEntry == sh.Entries[len(sh.Entries)-1].Timestamp
 
 //@ func (*SearchHistory).getUniqueQueries
 //@   ensures result != nil && fresh(result)
